@@ -1,5 +1,8 @@
 //! hv-core: drivers and replayers for the parts of Elvis that need only `elvis-core`.
+mod ipfrag;
+mod iptab;
 mod modcmp;
+mod msgh;
 mod tcbh;
 mod util;
 
@@ -17,6 +20,10 @@ fn main() {
         "tcb-drive" => tcb_drive(&args),
         "tcb-replay" => tcb_replay(&args),
         "modcmp-drive" => modcmp::drive(&args),
+        "frag-drive" => ipfrag::frag_drive(&args),
+        "msg-drive" => msgh::drive(&args),
+        "iptab-drive" => iptab::drive(&args),
+        "reasm-drive" => ipfrag::reasm_drive(&args),
         other => {
             eprintln!("unknown command {other}");
             std::process::exit(2);
